@@ -2,6 +2,7 @@
 import Glb.Basic
 import Glb.Model.Filter
 import Glb.Model.Utf8
+import Glb.Model.TaskLane
 import Glb.Generated.Logger
 import Glb.Proofs.Filter
 import Glb.Props.C11
